@@ -3,8 +3,8 @@
    wake-up and after every event of a read.  "gaps_le p" is the environment hypothesis that the selector returns
    within its timeout p and that handlers take no virtual time. *)
 From Coq Require Import List ZArith Bool.
-From Model Require Import Conn.
-From Proofs Require Import TimerFacts TimerTie.
+From Model Require Import Conn Selector.
+From Proofs Require Import TimerFacts TimerTie SelectorFacts.
 Import ListNotations.
 Open Scope Z_scope.
 
@@ -71,3 +71,34 @@ Example C15_nonvacuous :
   pings 12 0 [0; 5; 10; 15; 20; 25; 30; 35; 40] = [5; 15; 25; 40] /\
   gaps_le 5 0 [0; 5; 10; 15; 20; 25; 30; 35; 40] /\ nondecreasing_from 0 [0; 5; 10; 15; 20; 25; 30; 35; 40].
 Proof. vm_compute. repeat split; intros; discriminate. Qed.
+
+(* ---------- without the environment hypothesis ---------- *)
+(* "gaps_le p" above is an assumption about the selector.  Under a selector that honours its timeout -- it returns as soon
+   as the next arrival is there and after exactly the timeout otherwise (Model.Selector.wakes; the harness' HonestSelector,
+   compared with it on every run) -- a loop that asks for p every time wakes up at non-decreasing instants at most p
+   apart, for EVERY arrival time line; the bounds then hold outright *)
+Theorem C15_honest_selector_wakes_within_p : forall fuel p now arr, 0 <= p ->
+  nondecreasing_from now (wakes fuel p now arr) /\ gaps_le p now (wakes fuel p now arr).
+Proof. intros. split; [apply wakes_nondecreasing|apply wakes_gaps]; assumption. Qed.
+Print Assumptions C15_honest_selector_wakes_within_p.
+
+Theorem C15_polls_under_honest_selector : forall fuel p s arr, 0 < p ->
+  chain (fun a b => p <= b - a) s (polls p (Some s) (wakes fuel p s arr)) /\
+  chain (fun a b => b - a < 2 * p) s (polls p (Some s) (wakes fuel p s arr)).
+Proof. exact polls_under_honest_selector. Qed.
+Print Assumptions C15_polls_under_honest_selector.
+
+Theorem C15_ping_under_honest_selector : forall fuel r p k arr, 0 < r -> 0 < p -> 0 <= k ->
+  (exists t, In t (wakes fuel p 0 arr) /\ k * r < t) ->
+  exists u, In u (pings r 0 (wakes fuel p 0 arr)) /\ k * r < u <= k * r + p.
+Proof. exact ping_under_honest_selector. Qed.
+
+Theorem C15_close_timeout_under_honest_selector : forall fuel p v s arr, 0 < p -> v <> 0 -> 0 < s + v ->
+  forall t, In t (wakes fuel p 0 arr) -> close_overdue (Some v) (Some s) t = true ->
+  exists t1, In t1 (wakes fuel p 0 arr) /\ close_overdue (Some v) (Some s) t1 = true /\ s + v <= t1 <= s + v + p.
+Proof. exact close_timeout_under_honest_selector. Qed.
+
+(* an arrival is noticed the moment it is there (the loop never sleeps past available data: C18's statement on this clock) *)
+Theorem C15_arrival_seen_at_once : forall fuel p now a rest, 0 <= p -> now <= a ->
+  (Z.to_nat ((a - now) / Z.max p 1) + 1 <= fuel)%nat -> 0 < p -> In a (wakes fuel p now (a :: rest)).
+Proof. exact arrival_seen_at_once. Qed.
